@@ -25,5 +25,8 @@ bool shapeBits(const std::vector<bool> &isLeft, uint64_t &out);
 // built over leaves 0..p. The tree over n leaves is a leaf when n = 1, otherwise its left subtree holds the
 // largest power of two strictly smaller than n leaves and the right subtree the rest.
 bool calShape(uint64_t t, uint64_t p, std::vector<bool> &isLeft);
-Bytes legacyId(const std::string &name); // 03 00 len name 0-padding to 29 bytes
+Bytes legacyId(const std::string &name);
+// A coherent simulated calendar: the sibling of every step is a deterministic function of the sibling subtree's identity
+// (first leaf, leaf count), so chains for the same leaf and different publication times agree wherever the trees do.
+std::vector<CalLink> coherentCalLinks(uint64_t t, uint64_t p, uint64_t salt); // 03 00 len name 0-padding to 29 bytes
 }
